@@ -25,6 +25,7 @@ import (
 	"sort"
 	"strconv"
 	"strings"
+	"sync"
 	"testing"
 	"time"
 
@@ -41,6 +42,31 @@ type c10Err struct {
 
 func (e *c10Err) Error() string { return "c10-" + e.kind + "-" + strconv.Itoa(e.attempt) }
 func (e *c10Err) Unwrap() error { return e.wrap }
+
+// c10Ctx is the request's context: the harness decides when and how it becomes done
+// (cancelled by the caller, or its deadline passed).
+type c10Ctx struct {
+	context.Context
+	mu   sync.Mutex
+	done chan struct{}
+	err  error
+}
+
+func newC10Ctx() *c10Ctx { return &c10Ctx{Context: context.Background(), done: make(chan struct{})} }
+func (c *c10Ctx) Done() <-chan struct{} { return c.done }
+func (c *c10Ctx) Err() error {
+	c.mu.Lock()
+	defer c.mu.Unlock()
+	return c.err
+}
+func (c *c10Ctx) finish(err error) {
+	c.mu.Lock()
+	defer c.mu.Unlock()
+	if c.err == nil {
+		c.err = err
+		close(c.done)
+	}
+}
 
 type c10KV struct {
 	k  string
@@ -73,6 +99,11 @@ type c10Case struct {
 	body              string // n | b<text> | u<text> | m<value> | r<text>
 	trace, dump       bool
 	useSend           bool
+	// a sibling configured AFTER the request under test got its own setters and before it is
+	// sent (1: another c.R() with request-level setters, 2: a c.Clone() with client-level
+	// setters); it must not influence the request under test, so it is not part of the model line
+	sibKind int
+	sibOps  []string
 }
 
 func c10Pairs(l [][2]string) string {
@@ -239,6 +270,8 @@ type c10Run struct {
 	iter    int      // loop iterations started (calls of the request middleware stub)
 	req     *Request
 	cancel  context.CancelFunc
+	ctx     *c10Ctx
+	closers []io.Closer
 	final   string
 	maxRetr int
 	enabled bool
@@ -281,6 +314,11 @@ func (x *c10Run) RoundTrip(r *http.Request) (*http.Response, error) {
 		return nil, &c10Err{"c", k, context.Canceled}
 	case 'z':
 		return nil, &c10Err{"w", k, nil}
+	case 'D': // the deadline of the request's own context passes during this attempt
+		x.ctx.finish(context.DeadlineExceeded)
+		return nil, &c10Err{"d", k, context.DeadlineExceeded}
+	case 'L': // the response arrives, then the caller cancels the context
+		x.ctx.finish(context.Canceled)
 	}
 	code, _ := strconv.Atoi(o[1:])
 	content := "ok"
@@ -518,9 +556,9 @@ func (x *c10Run) build(dir string) (*Client, *Request) {
 	}
 	r := c.R()
 	x.req = r
-	ctx, cancel := context.WithCancel(context.Background())
-	x.cancel = cancel
-	r.SetContext(ctx)
+	x.ctx = newC10Ctx()
+	x.cancel = func() { x.ctx.finish(context.Canceled) }
+	r.SetContext(x.ctx)
 	for _, p := range tc.cookies {
 		r.SetCookies(&http.Cookie{Name: p[0], Value: p[1]})
 	}
@@ -567,6 +605,19 @@ func (x *c10Run) build(dir string) (*Client, *Request) {
 			r.SetFileReader(f.param, f.name, strings.NewReader(content))
 		case "r":
 			r.SetFileReader(f.param, f.name, bytes.NewBufferString(content))
+		case "o": // an open *os.File: io.Seeker AND io.Closer, closed by the attempt that reads it
+			d := filepath.Join(dir, strconv.Itoa(i))
+			os.MkdirAll(d, 0o755)
+			p := filepath.Join(d, f.name)
+			if err := os.WriteFile(p, []byte(content), 0o644); err != nil {
+				panic(err)
+			}
+			fh, err := os.Open(p)
+			if err != nil {
+				panic(err)
+			}
+			x.closers = append(x.closers, fh)
+			r.SetFileReader(f.param, f.name, fh)
 		}
 	}
 	switch tc.body[0] {
@@ -607,6 +658,17 @@ func (x *c10Run) build(dir string) (*Client, *Request) {
 		r.SetErrorResult(&struct{}{})
 	}
 	x.applyOps(tc.reqOps, nil, r)
+	switch tc.sibKind {
+	case 1:
+		sib := &c10Run{tc: tc}
+		sib.req = c.R()
+		sib.applyOps(tc.sibOps, nil, sib.req)
+	case 2:
+		sib := &c10Run{tc: tc}
+		cc := c.Clone()
+		sib.req = cc.R()
+		sib.applyOps(tc.sibOps, cc, nil)
+	}
 	if ro := r.retryOption; ro != nil {
 		x.enabled = true
 		x.maxRetr = ro.MaxRetries
@@ -617,6 +679,11 @@ func (x *c10Run) build(dir string) (*Client, *Request) {
 				x.obs = append(x.obs, int64(d))
 				x.ivAtt = append(x.ivAtt, attempt)
 				x.log = append(x.log, "I"+strconv.Itoa(attempt)+"@"+c10View(resp)+"="+strconv.FormatInt(int64(d), 10))
+				if x.ctx.Err() != nil {
+					// the wait must end through ctx.Done(): keep the timer well away so that the
+					// run is deterministic (zero intervals with a done context: lane ctxdone)
+					return 200 * time.Millisecond
+				}
 				return 0
 			}
 		}
@@ -627,6 +694,11 @@ func (x *c10Run) build(dir string) (*Client, *Request) {
 func (x *c10Run) exec(dir string) {
 	_, r := x.build(dir)
 	defer x.cancel()
+	defer func() {
+		for _, c := range x.closers {
+			c.Close()
+		}
+	}()
 	var resp *Response
 	x.lastXAtt = -1
 	_, panicked := verifh.Safely(func() {
@@ -656,6 +728,8 @@ func (x *c10Run) exec(dir string) {
 			var e *c10Err
 			if errors.As(resp.Err, &e) {
 				es = strconv.Itoa(e.attempt) + "/" + e.kind
+			} else if resp.Err == context.Canceled || resp.Err == context.DeadlineExceeded {
+				es = strconv.Itoa(x.iter-1) + "/x" // ctx.Err() itself: handed back by the wait step
 			} else {
 				es = "?/" + verifh.Hex(resp.Err.Error())
 			}
@@ -700,7 +774,13 @@ func (x *c10Run) oracle() (ok bool, why string) {
 	}
 	// interval function once per retry with attempt numbers 1,2,…
 	retries := x.iter - 1
-	if x.enabled && len(x.ivAtt) != retries {
+	lastOut := ""
+	if x.iter >= 1 && x.iter-1 < len(tc.script) {
+		lastOut = tc.script[x.iter-1]
+	}
+	ctxDoneLast := lastOut == "D" || (lastOut != "" && lastOut[0] == 'L')
+	// a wait that finds the context done follows one more round of hooks + interval call
+	if x.enabled && len(x.ivAtt) != retries && !(ctxDoneLast && len(x.ivAtt) == retries+1) {
 		return fail(fmt.Sprintf("%d interval calls for %d retries", len(x.ivAtt), retries))
 	}
 	for i, a := range x.ivAtt {
@@ -717,8 +797,8 @@ func (x *c10Run) oracle() (ok bool, why string) {
 		}
 	}
 	for id, n := range perRetry {
-		if retries == 0 || n%retries != 0 {
-			return fail(fmt.Sprintf("hook %d ran %d times for %d retries", id, n, retries))
+		if rounds := len(x.ivAtt); rounds == 0 || n%rounds != 0 {
+			return fail(fmt.Sprintf("hook %d ran %d times for %d retries (%d interval calls)", id, n, retries, rounds))
 		}
 	}
 	// the script decides: nothing after a cancelled context; with no condition configured the
@@ -732,10 +812,10 @@ func (x *c10Run) oracle() (ok bool, why string) {
 	last := x.iter - 1
 	for k := 0; k <= last && k < len(tc.script); k++ {
 		o := tc.script[k]
-		if k < last && (o == "c" || o == "e") {
-			return fail(fmt.Sprintf("attempt after outcome %s of iteration %d", o, k))
+		if k < last && (o == "c" || o == "e" || o == "D" || o[0] == 'L') {
+			return fail(fmt.Sprintf("attempt after outcome %s of iteration %d (context done / middleware error)", o, k))
 		}
-		if noConds && x.enabled && o != "c" && o != "e" {
+		if noConds && x.enabled && o != "c" && o != "e" && o != "D" && o[0] != 'L' {
 			abort := false
 			for _, p := range tc.after {
 				// the stub predicates only read status / error presence / attempt number
@@ -768,7 +848,7 @@ func (x *c10Run) oracle() (ok bool, why string) {
 	// the result is the last attempt's
 	if last >= 0 && last < len(tc.script) {
 		o := tc.script[last]
-		if (o[0] == 's' || o[0] == 'b') && x.lastXAtt != last {
+		if (o[0] == 's' || o[0] == 'b' || o[0] == 'L') && x.lastXAtt != last {
 			return fail(fmt.Sprintf("returned response is from attempt %d, last attempt was %d", x.lastXAtt, last))
 		}
 		if o[0] == 's' && len(tc.after) == 0 && !strings.HasSuffix(x.final, ":-") {
@@ -814,7 +894,7 @@ func (tc *c10Case) relevantBits() []int {
 		}
 	}
 	for _, f := range tc.files {
-		if f.kind == "s" || f.kind == "r" {
+		if f.kind == "s" || f.kind == "r" || f.kind == "o" {
 			r = append(r, 4)
 			break
 		}
@@ -896,6 +976,9 @@ func c10Finish(s *verifh.Session, recs []c10Rec) {
 		r := recs[i]
 		human := fmt.Sprintf("clientOps=%v reqOps=%v conds=%v hooks=%v after=%v script=%v %s %s body=%q files=%d -> %s",
 			r.tc.clientOps, r.tc.reqOps, r.tc.conds, r.tc.hooks, r.tc.after, r.tc.script, r.tc.method, r.tc.url, r.tc.body, len(r.tc.files), c10Short(r.impl))
+		if r.tc.sibKind != 0 {
+			human = fmt.Sprintf("sibling(kind %d, configured after the request under test)=%v ", r.tc.sibKind, r.tc.sibOps) + human
+		}
 		if !r.ok {
 			human = "ORACLE: " + r.why + " | " + human
 		}
@@ -924,7 +1007,7 @@ func c10Exec(tc *c10Case, dir string) c10Rec {
 
 // ---------------------------------------------------------------------------- generators
 
-var c10Alphabet = []string{"s200", "s503", "t", "c", "z", "e", "b500", "d", "s404", "b200", "s301", "s429"}
+var c10Alphabet = []string{"s200", "s503", "t", "c", "z", "e", "b500", "d", "D", "L503", "s404", "b200", "s301", "s429", "L200"}
 
 func c10Simple() *c10Case {
 	return &c10Case{allowGet: true, method: "GET", url: "http://c10.test/p", body: "n"}
@@ -934,7 +1017,7 @@ func c10Simple() *c10Case {
 // retry counts x policy configurations, on a plain request; then random policies.
 func TestVerif_C10_loop(t *testing.T) {
 	s := verifh.New(t, "C10", "loop",
-		"exhaustive: outcome sequences over {200,503,transport error,cancelled,(nil,err) wrapper,middleware error,bad body,deadline} up to depth 3 (quick) / 5 (thorough), over a 4-symbol alphabet up to depth 6, x MaxRetries {-1,0,1,2,5,unset} x policy {default rule, one condition, two conditions, request-level response middleware}; then random client/request Set/Add op lists (conditions, hooks, interval functions incl. fixed/backoff/default), random failing response middleware; non-trivial = at least one retry")
+		"exhaustive: outcome sequences over {200,503,transport error,cancelled,(nil,err) wrapper,middleware error,bad body,deadline error,deadline of the request context passed,response then cancel} up to depth 3 (quick) / 5 (thorough), over a 4-symbol alphabet up to depth 6, x MaxRetries {-1,0,1,2,5,unset} x policy {default rule, one condition, two conditions, request-level response middleware}; then random client/request Set/Add op lists (conditions, hooks, interval functions incl. fixed/backoff/default), random failing response middleware; SIBLINGS: 0..9 client-level Add calls (slice capacities with and without spare room) x a second request of the same client / a Client.Clone configured with its own Add/Set calls after the request under test and before it is sent; non-trivial = at least one retry")
 	r := s.Rand()
 	dir := t.TempDir()
 	var recs []c10Rec
@@ -965,7 +1048,7 @@ func TestVerif_C10_loop(t *testing.T) {
 			gen(alpha, depth, append(cur, a))
 		}
 	}
-	gen(c10Alphabet[:8], verifh.N(3, 4), nil)
+	gen(c10Alphabet[:10], verifh.N(3, 4), nil)
 	gen([]string{"s200", "s503", "t", "c"}, verifh.N(4, 6), nil)
 	seen := map[string]bool{}
 	for _, sq := range seqs {
@@ -1027,6 +1110,36 @@ func TestVerif_C10_loop(t *testing.T) {
 				}
 				recs = append(recs, c10Exec(tc, dir))
 				s.Count("setadd:" + kind)
+			}
+		}
+	}
+	// Siblings: the client-level condition/hook lists get 0..9 entries (len 3,5,6,7,9 leave spare
+	// capacity in the slice), the request under test adds its own, THEN a sibling — another
+	// request of the same client, or a clone of the client — adds/sets its own, then the request
+	// under test is sent: it must run with exactly its own policy.
+	for k := 0; k <= 9; k++ {
+		for _, sk := range []int{1, 2} {
+			for v := 0; v < 4; v++ {
+				tc := c10Simple()
+				// stubs 0..k-1 client level (never ask / noop), k = the request's own, k+1 = the sibling's
+				tc.clientOps = []string{"n=3", "i=f1"}
+				for i := 0; i < k; i++ {
+					tc.conds = append(tc.conds, "F")
+					tc.hooks = append(tc.hooks, "N")
+					tc.clientOps = append(tc.clientOps, "ac"+strconv.Itoa(i), "ah"+strconv.Itoa(i))
+				}
+				own, sib := []string{"G500", "F", "G500", "Q200"}[v], []string{"F", "T", "Q404", "G500"}[v]
+				tc.conds = append(tc.conds, own, sib)
+				tc.hooks = append(tc.hooks, "N", "H"+verifh.Hex("X-Sibling")+":"+verifh.Hex("1"))
+				tc.reqOps = []string{"ac" + strconv.Itoa(k), "ah" + strconv.Itoa(k)}
+				tc.sibKind = sk
+				tc.sibOps = []string{"ac" + strconv.Itoa(k+1), "ah" + strconv.Itoa(k+1)}
+				if v == 3 {
+					tc.sibOps = []string{"sc" + strconv.Itoa(k+1), "sh" + strconv.Itoa(k+1), "n=0"}
+				}
+				tc.script = []string{"s503", "s503", "s200", "c"}
+				recs = append(recs, c10Exec(tc, dir))
+				s.Count("sibling-systematic")
 			}
 		}
 	}
@@ -1135,6 +1248,9 @@ func c10RandPolicy(r interface{ Intn(int) int }, tc *c10Case) {
 	preds := []string{"E", "T", "F", "G500", "G400", "Q503", "Q429", "Q200", "L1", "L2", "L3"}
 	acts := []string{"N", "N", "N", "H" + verifh.Hex("X-Retry") + ":" + verifh.Hex("yes"), "K" + verifh.Hex("hk") + ":" + verifh.Hex("1"), "Q" + verifh.Hex("rq") + ":" + verifh.Hex("2")}
 	nC, nH := r.Intn(4), r.Intn(4)
+	if r.Intn(4) == 0 { // longer client-level lists: slice capacities with spare room
+		nC, nH = 3+r.Intn(6), 3+r.Intn(6)
+	}
 	for i := 0; i < nC; i++ {
 		tc.conds = append(tc.conds, preds[r.Intn(len(preds))])
 	}
@@ -1181,7 +1297,25 @@ func c10RandPolicy(r interface{ Intn(int) int }, tc *c10Case) {
 		return ops
 	}
 	tc.clientOps = mk(0)
+	if nC > 4 || nH > 4 {
+		for i := 0; i < nC-1; i++ {
+			tc.clientOps = append(tc.clientOps, "ac"+strconv.Itoa(i))
+		}
+		for i := 0; i < nH-1; i++ {
+			tc.clientOps = append(tc.clientOps, "ah"+strconv.Itoa(i))
+		}
+	}
 	tc.reqOps = mk(1)
+	if r.Intn(3) == 0 {
+		tc.sibKind = 1 + r.Intn(2)
+		tc.sibOps = mk(1)
+		if nC > 0 {
+			tc.sibOps = append(tc.sibOps, "ac"+strconv.Itoa(r.Intn(nC)))
+		}
+		if nH > 0 {
+			tc.sibOps = append(tc.sibOps, "ah"+strconv.Itoa(r.Intn(nH)))
+		}
+	}
 	// make sure retries are usually enabled and an interval is usually installed (the default
 	// interval is observed too, but not slept: the harness wraps the installed function)
 	if r.Intn(8) != 0 {
@@ -1315,7 +1449,7 @@ func c10RandShape(r interface{ Intn(int) int }, tc *c10Case) (mode string) {
 		mode = "multipart-files"
 		for i := 0; i < 1+r.Intn(3); i++ {
 			f := c10File{param: "p" + strconv.Itoa(i), name: "f" + strconv.Itoa(i) + ".txt", content: c10Text(strings.Repeat(c10Word(r, true), 1+r.Intn(3)))}
-			switch k := r.Intn(20); {
+			switch k := r.Intn(23); {
 			case k < 6:
 				f.kind = "b"
 				if r.Intn(3) == 0 {
@@ -1325,8 +1459,10 @@ func c10RandShape(r interface{ Intn(int) int }, tc *c10Case) (mode string) {
 				f.kind = "p"
 			case k < 17:
 				f.kind = "s"
-			default:
+			case k < 20:
 				f.kind = "r"
+			default:
+				f.kind = "o"
 			}
 			if r.Intn(12) == 0 {
 				f.content = c10Text(strings.Repeat("0123456789abcdef", 40)) // longer than the 512-byte sniff
@@ -1577,6 +1713,141 @@ func TestVerif_C10_backoff(t *testing.T) {
 			unexplained := class[i] == "" && (!rc.ok || (ans != nil && ans[i] != rc.impl))
 			if unexplained == (pass == 0) {
 				s.Case(lines[i], rc.impl, rc.ok, class[i], rc.nontriv, fmt.Sprintf("backoffInterval(%d,%d)(nil,%d) -> %s", rc.mn, rc.mx, rc.att, rc.obs))
+			}
+		}
+	}
+	s.Finish()
+}
+
+// ---------------------------------------------------------------------------- context done + zero interval
+
+type c10CountRT struct {
+	ctx       context.Context
+	block     bool // wait for the context's deadline inside the round trip
+	status    int  // 0: fail with the context's error; else answer with that status
+	cancel    func()
+	started   int
+	afterDone int // round trips begun with a context that was already done
+}
+
+func (c *c10CountRT) RoundTrip(r *http.Request) (*http.Response, error) {
+	c.started++
+	if c.ctx.Err() != nil {
+		c.afterDone++
+	}
+	if c.started > 200 {
+		panic("c10: runaway retry loop")
+	}
+	if c.block {
+		<-c.ctx.Done()
+	}
+	if c.status != 0 {
+		if c.cancel != nil {
+			c.cancel() // the caller cancels once the response is there
+		}
+		return &http.Response{StatusCode: c.status, Status: strconv.Itoa(c.status) + " X", Proto: "HTTP/1.1", ProtoMajor: 1, ProtoMinor: 1,
+			Header: http.Header{}, Body: io.NopCloser(strings.NewReader("ok")), Request: r}, nil
+	}
+	if err := c.ctx.Err(); err != nil {
+		return nil, err
+	}
+	return nil, errors.New("c10: transport error")
+}
+
+// TestVerif_C10_ctxdone: "a further attempt is made exactly when the context is not cancelled"
+// for contexts that are done WITHOUT the round-trip error being context.Canceled — a passed
+// deadline, or a cancel after the response — combined with retry intervals of zero and below,
+// where there is nothing to wait for.  The installed interval function is NOT wrapped here.
+// A zero timer and ctx.Done() may both be ready in the wait's select, which then picks at
+// random: a few stray attempts are tolerated, going on with a dead context is not.
+func TestVerif_C10_ctxdone(t *testing.T) {
+	s := verifh.New(t, "C10", "ctxdone",
+		"context done by deadline (already expired / expiring during the first attempt) or cancelled after a response, x interval source {fixed 0, fixed -1ns, function returning 0, backoff(0,1s), backoff(1ns,1ns), fixed 1ns, fixed 2ms, default} at client or request level x MaxRetries {-1,3,40} x {default rule, condition always}; oracle: at most 4 round trips begin after the context is done, the loop ends, the error is the context's; non-trivial = the deadline/cancel arrived and a retry was due")
+	type iv struct {
+		name string
+		set  func(c *Client, r *Request)
+	}
+	zero := func(resp *Response, attempt int) time.Duration { return 0 }
+	ivs := []iv{
+		{"fixed0-req", func(c *Client, r *Request) { r.SetRetryFixedInterval(0) }},
+		{"fixed0-client", func(c *Client, r *Request) { c.SetCommonRetryFixedInterval(0) }},
+		{"fixed-neg", func(c *Client, r *Request) { r.SetRetryFixedInterval(-1) }},
+		{"fn0-req", func(c *Client, r *Request) { r.SetRetryInterval(zero) }},
+		{"fn0-client", func(c *Client, r *Request) { c.SetCommonRetryInterval(zero) }},
+		{"backoff0", func(c *Client, r *Request) { r.SetRetryBackoffInterval(0, time.Second) }},
+		{"backoff1ns", func(c *Client, r *Request) { c.SetCommonRetryBackoffInterval(1, 1) }},
+		{"fixed1ns", func(c *Client, r *Request) { r.SetRetryFixedInterval(1) }},
+		{"fixed2ms", func(c *Client, r *Request) { r.SetRetryFixedInterval(2 * time.Millisecond) }},
+		{"default", func(c *Client, r *Request) {}},
+	}
+	reps := verifh.N(2, 40)
+	for rep := 0; rep < reps; rep++ {
+		for _, v := range ivs {
+			for _, n := range []int{-1, 3, 40} {
+				for mode := 0; mode < 3; mode++ { // 0 expired before the call, 1 expires during attempt 1, 2 cancel after a 503
+					for _, always := range []bool{false, true} {
+						if mode == 2 && !always {
+							continue // a 503 is only retried under a condition
+						}
+						id := fmt.Sprintf("%s n=%d mode=%d always=%v", v.name, n, mode, always)
+						var ctx context.Context
+						var cancel context.CancelFunc
+						rt := &c10CountRT{}
+						switch mode {
+						case 0:
+							ctx, cancel = context.WithDeadline(context.Background(), time.Now().Add(-time.Second))
+						case 1:
+							ctx, cancel = context.WithTimeout(context.Background(), 3*time.Millisecond)
+							rt.block = true
+						default:
+							ctx, cancel = context.WithCancel(context.Background())
+							rt.status, rt.cancel = 503, cancel
+						}
+						rt.ctx = ctx
+						c := C()
+						c.httpClient.Transport = rt
+						hooks := 0
+						var resp *Response
+						_, panicked := verifh.Safely(func() {
+							r := c.R().SetContext(ctx)
+							if rep%2 == 0 {
+								r.SetRetryCount(n)
+							} else {
+								c.SetCommonRetryCount(n)
+								r = c.R().SetContext(ctx)
+							}
+							v.set(c, r)
+							if rep%2 == 1 { // client-level settings reach requests created afterwards
+								r = c.R().SetContext(ctx)
+								if v.name != "fixed0-client" && v.name != "fn0-client" && v.name != "backoff1ns" {
+									v.set(c, r)
+								}
+							}
+							r.AddRetryHook(func(*Response, error) { hooks++ })
+							if always {
+								r.AddRetryCondition(func(*Response, error) bool { return true })
+							}
+							resp = r.Do()
+							_ = resp
+						})
+						cancel()
+						ok, why := true, ""
+						switch {
+						case panicked:
+							ok, why = false, fmt.Sprintf("retry loop did not end: %d round trips, %d of them begun with a done context", rt.started, rt.afterDone)
+						case rt.afterDone > 4+map[int]int{0: 1}[mode]:
+							ok, why = false, fmt.Sprintf("%d round trips begun after the context was done (%d in all, %d hook calls, RetryAttempt=%d, MaxRetries=%d)", rt.afterDone, rt.started, hooks, resp.Request.RetryAttempt, n)
+						case resp == nil || resp.Err == nil || !(errors.Is(resp.Err, context.DeadlineExceeded) || errors.Is(resp.Err, context.Canceled)):
+							ok, why = false, fmt.Sprintf("returned error is not the context's: %v", resp.Err)
+						}
+						s.Count("mode:" + strconv.Itoa(mode))
+						s.Count("interval:" + v.name)
+						if rt.afterDone > map[int]int{0: 1}[mode] {
+							s.Count("stray-attempts")
+						}
+						s.Observe(id+fmt.Sprintf(" rep=%d", rep), ok, "", hooks >= 1, id+fmt.Sprintf(" -> %d round trips, %d after done, %d hook calls", rt.started, rt.afterDone, hooks), why)
+					}
+				}
 			}
 		}
 	}
